@@ -896,11 +896,11 @@ func dispatchKeys(c *Ctx, rule string) {
 		args := CallArgs(calls[0])
 		want := map[string][]string{
 			"Get":     {"call:(pkg/resource.*).ID(param#2)"},
-			"Create":  {"param#1", "param#2", "*var:options.Owner"},
-			"Update":  {"param#1", "param#2", "var:options"},
-			"Destroy": {"param#1", "param#2", "*var:options.Owner"},
+			"Create":  {"param#1", "param#2", "*var:pkg/state.CreateOptions.Owner"},
+			"Update":  {"param#1", "param#2", "var:pkg/state.UpdateOptions"},
+			"Destroy": {"param#1", "param#2", "*var:pkg/state.DestroyOptions.Owner"},
 			"Watch":   {"param#1", "call:(pkg/resource.*).ID(param#2)", "param#3", "param#4"},
-			"List":    {"var:options"},
+			"List":    {"var:pkg/state.ListOptions"},
 		}[m]
 
 		for i, w := range want {
